@@ -81,6 +81,10 @@ class LRUCacheStore(Store):
         _logger.debug(f"Fetching key {key}")
         res = self._store.fetch_blob(key)
         _logger.debug(f"Fetching key {key} completed: {type(res)}")
+        if res is None and not self._store.has_blob(key):
+            # The blob is absent from the store: this miss must not be cached, otherwise the key
+            # would be reported as present and a value stored later would never be seen.
+            return None
         self._cache.put(key, res)
         return res
 
